@@ -5,11 +5,12 @@ import OPM.Gen.LockTable
 namespace Driver.TickLock
 open OPM OPM.Wire OPM.TickLock
 
-/-- op:  `sched <T labels ,> <requests ;  each name=inner|inner or name=-> <choices TRRT…> <class ids ,>`
+/-- op:  `sched <T labels ,> <requests ;  each name=inner|inner or name=-> <choices TRRT…> <class ids ,> <read fails 0/1>`
          `schedm …` the same with every entry point's lock flag negated (mutant for the self-test)
     T labels / inner labels are the yield labels seen in a serial dry run, *without* `<start>` and `acq`: where the
     lock is taken comes from `OPM.Gen.LockTable`.
-    answer: `trace=<thread:label,…> pos=<b|a|t per request> cls=<expected class id, or - when a request is torn>`,
+    answer: `trace=<thread:label,…> pos=<b|a|t|p per request> cls=<expected class id, or - when a request is torn or ran
+            after an effect of the unlocked prologue>`,
             `bad-schedule` if a choice is not enabled / the schedule is not complete, `bad-op` if ill-formed. -/
 
 def parseReq (s : String) : Option (String × List String) :=
@@ -28,8 +29,9 @@ def showPos : Pos → String
   | .before => "b"
   | .after => "a"
   | .torn => "t"
+  | .prologue => "p"
 
-def run (entries : List Entry) (tl rq ch cls : String) : String :=
+def run (entries : List Entry) (tl rq ch cls : String) (readFails : Bool) : String :=
   let tlabels := if tl = "-" then [] else tl.splitOn ","
   match (rq.splitOn ";").mapM parseReq, parseChoices ch, natList cls with
   | some reqs, some choices, some clsIds =>
@@ -41,12 +43,12 @@ def run (entries : List Entry) (tl rq ch cls : String) : String :=
       | some sim =>
         if sim.pcT ≠ progT.length || sim.pcR ≠ progR.length then "bad-schedule"
         else
-          let poss := (List.range reqs.length).map (fun j => classify sim.trace (j + 1))
+          let poss := (List.range reqs.length).map (fun j => classify sim.trace (j + 1) readFails)
           let tr := ",".intercalate (sim.trace.map (fun p => showTid p.1 ++ ":" ++ p.2.label))
           let nAfter := (poss.filter (· == .after)).length
           let monotone := poss.dropWhile (· == .before) |>.all (· == .after)
           let cls :=
-            if poss.any (· == .torn) then "-"
+            if poss.any (fun p => p == .torn || p == .prologue) then "-"
             else if !monotone then "impossible"
             else match clsIds[nAfter]? with
               | some c => toString c
@@ -57,9 +59,14 @@ def run (entries : List Entry) (tl rq ch cls : String) : String :=
 
 def step (_ : Unit) (line : String) : Unit × String :=
   match fields line with
-  | ["sched", tl, rq, ch, cls] => ((), run OPM.Gen.LockTable.entries tl rq ch cls)
-  | ["schedm", tl, rq, ch, cls] =>
-    ((), run (OPM.Gen.LockTable.entries.map (fun e => { e with bodyLocked := !e.bodyLocked })) tl rq ch cls)
+  | ["sched", tl, rq, ch, cls, f] =>
+    match parseBool f with
+    | some f => ((), run OPM.Gen.LockTable.entries tl rq ch cls f)
+    | none => ((), "bad-op")
+  | ["schedm", tl, rq, ch, cls, f] =>
+    match parseBool f with
+    | some f => ((), run (OPM.Gen.LockTable.entries.map (fun e => { e with bodyLocked := !e.bodyLocked })) tl rq ch cls f)
+    | none => ((), "bad-op")
   | _ => ((), "bad-op")
 
 end Driver.TickLock
